@@ -219,7 +219,7 @@ def search(ctx):
         # declaration shapes the allocator leaves alone
         for r in ["g_a:Texture2D:-:2x3:0:0:e", "g_a:struct:-:-:0:0:e", "g_a:Texture2D:-:u:0:0:e", "g_a:Texture2D:-:-:0:0:s",
                   "g_a:Texture2D:-:-:0:0:e:ns", "float16_t:Texture2D:-:-:0:0:e;float16_t_0:cbuffer:-:-:0:0:e",
-                  "g_b:Texture2D:-:-:0:0:e:ns"]:
+                  "g_b:Texture2D:-:-:0:0:e:ns", "g_a:RayDesc:-:-:0:0:e", "g_a:RayDesc:-:2:0:0:e"]:
             for uses in ["0", ""]:
                 out.append("\t".join(["C05.meta", tgt, "name=P0", "0", r + ";g_b:Texture2D:-:-:0:0:e", "",
                                        f"cs_0:Compute:{uses}:::8.4.1", "P0:-:0"]))
@@ -263,8 +263,9 @@ SPEC = {
         "descriptor_kind_count", "meta_bijective_hlsl", "meta_bijective_msl", "meta_bijective_msl_exact", "msl_sort_keeps_sorted",
         "excluded_declarations", "used_iff_reachable_of_result", "usage_loop_terminates", "used_sound_complete", "used_flag",
         "hlsl_params_of_targets", "hlsl_annotations_total", "annot_iff_entry", "annotations_match_metadata_hlsl",
-        "hlsl_metadata_total", "msl_metadata_total_or_refused",
-        "entry_named_and_defined", "thread_group_size_ambiguous_witness", "stage_records_follow_properties",
+        "hlsl_metadata_total", "hlsl_metadata_total_or_refused", "msl_metadata_total_or_refused",
+        "msl_export_total_or_refused", "msl_reached_argument_is_bound",
+        "entry_named_and_defined", "reported_thread_group_size_is_emitted", "stage_records_follow_properties",
         "reported_size_is_the_typers_record", "pipeline_names_distinct", "reported_name_denotes_one_symbol", "hlsl_entry_point_unambiguous",
         "reported_name_not_reserved", "name_kept_when_unique_and_free", "hlsl_cbuffer_bypasses_name_map_witness",
         "same_leaf_name_in_two_namespaces_witness"]],
@@ -280,16 +281,18 @@ SPEC = {
             "as attribute, register space, vk::binding or both; explicit indices; helper call graphs with 14 statement shapes "
             "around each mention, default arguments and global initialisers that read resources, forward declarations; "
             "0-4 pipelines: compute, vertex+pixel, mesh+pixel, task+mesh, stage properties in either order, both file "
-            "layouts, numthreads as literals / named constants / arithmetic / two attributes, graphics state property sets; "
-            "rare variants: unsized arrays, static object globals, names reserved in a target, overloaded helpers, name "
-            "clashes, seven front-end error shapes) rendered to a file and compiled by the real compile() x {dx, vk, "
+            "layouts, numthreads as literals / named constants / arithmetic, graphics state property sets; "
+            "rare variants: unsized arrays, static object globals, a global of a non-resource object type (RayDesc), names "
+            "reserved in a target, overloaded helpers, name clashes, eight front-end error shapes incl. a second numthreads "
+            "attribute) rendered to a file and compiled by the real compile() x {dx, vk, "
             "vk+buffer-address, msl} x {all, one name, no-pipeline}, plus a sweep of every reserved name of hlsl/msl names.rs "
             "as entry-point and as resource name and an enumeration of ~8800 small inputs; the emitted HLSL is re-parsed with "
             "the real lexer+parser (MSL: text scan) and the property's own oracle compares every metadata entry with the "
             "annotation / declared type / array length of the declaration of that name, counts entries per externally bound "
             "declaration, checks inline constant blocks, stage entry functions + the values of their thread group size "
             "attributes, and is_used against reachability in the request's own use graph; the Lean model predicts metadata, "
-            "annotation texts, stage records, entry functions, emitted names and front-end error classes; non-trivial = at "
+            "annotation texts, stage records, entry functions, emitted names, front-end error classes and the exporters' "
+            "clean refusals (UnsupportedObjectType, UnsupportedBindGroupIndex, Metal UnboundGlobal); non-trivial = at "
             "least two entries and one reported stage",
     "level_text": "Proof: over the allocator model of C06, the models of both analyse_bindings, of register_binding, of the inline "
                   "constant block, of the Metal used-marking / per-group sort / [[id]] members and of the annotation printers "
@@ -299,26 +302,30 @@ SPEC = {
                   "api_slot); per bind group the entries are exactly the externally bound declarations, same names, same "
                   "order (on Metal too: its per-group sort is the identity on the allocator's output, by C06's tiling "
                   "theorem); annotations and entries line up one to one and the printers cannot panic on the allocator's "
-                  "output; descriptor type and count depend only on declared kind and array layer; non-extern globals are "
-                  "never bound. Used flag (full): the usage fixed point loop terminates (at most n*n modifying passes over n "
+                  "output; for every module (the allocator has no panic left since fix 774c0b4) the HLSL builder returns a "
+                  "description or UnsupportedObjectType, the Metal export a description or one of UnsupportedObjectType / "
+                  "UnsupportedBindGroupIndex / UnboundGlobal, and an exported Metal pipeline has an api slot for every extern "
+                  "global its stages reach (fix 2ba03a4); descriptor type and count depend only on declared kind and array "
+                  "layer; non-extern globals are never bound. Used flag (full): the usage fixed point loop terminates (at most n*n modifying passes over n "
                   "symbols) and equals reachability in the use graph of bodies, default arguments and global initialisers, "
                   "so is_used on Metal holds iff some stage entry point reaches the global (HLSL always reports true). "
                   "Stages: an accepted Pipeline block yields one record per stage property in property order, each pointing "
-                  "at the unique function of that name and storing its last numthreads attribute; build_pipeline reports the "
-                  "emitted function with that size on every target and stage kind (= the emitted size whenever the function "
-                  "has one attribute; with two different attributes the negation is proved by witness and recorded as a "
-                  "finding). Names: composed with the C15 model of NameMap::build, two different functions / globals of one "
+                  "at the unique function of that name and storing its last numthreads attribute; an accepted file declares "
+                  "no function with a second numthreads attribute (fix 0f5be73: parse_function_attributes), so on every "
+                  "target and stage kind build_pipeline reports the emitted function and the thread group size attributes it "
+                  "is emitted with are exactly the reported size (the former negation witness is gone). Names: composed with the C15 model of NameMap::build, two different functions / globals of one "
                   "scope never share a reported name, no reported name is reserved, and a unique unreserved name is kept "
                   "(NameKept is now a theorem, not a hypothesis); the two remaining ways two entries can share a name (HLSL "
                   "cbuffer blocks bypass the map; leaf names across namespaces) are proved as negation witnesses and recorded "
-                  "as findings. Tables, format strings and about 95 syntactic facts are re-extracted from the source on each "
+                  "as findings. Tables, format strings and about 100 syntactic facts are re-extracted from the source on each "
                   "run; the model is compared with the real compile() output on generated shaders.",
     "trusted_base": [
         "Lean 4.33 kernel; axioms propext / Classical.choice / Quot.sound only (audited by #print axioms)",
         "tools/gens/c05.py (Gen.MetaTables): ObjectType->DescriptorType tables of both exporters, RegisterType letters, "
         "register/attribute format strings, entry function names, reserved names, intrinsic function names, and regex facts about "
         "the DescriptorBinding literals, msl generate_pipeline, the HLSL annotation generators, build_pipeline, parse_pipeline / "
-        "add_stage, the name lookups of both exporters, simplify_cbuffers and the numthreads printers; Gen.SlotTables, "
+        "add_stage, parse_function_attributes, the name lookups of both exporters, simplify_cbuffers, the numthreads printers, "
+        "the formatter's attribute argument precedence and Metal's UnboundGlobal test; Gen.SlotTables, "
         "Gen.CompileTables, Gen.Reserved",
         "hand-written Model/Meta.lean, Model/MetaReach.lean, Model/MetaFront.lean, Model/Slots.lean, Model/Names.lean mirror the "
         "Rust functions; tied to the code by the correspondence run (model answer == observation of the real compile()) and the "
